@@ -26,6 +26,7 @@ VARIABLES
   cf,       \* [tab, dres, dfin, dstop, dstart, dcstop, sleep, ckpt, mra, eps, rep, seed]
             \*   tab[c][s][l] = <<metric, elapsed>>  (configuration c, seed s, level l), all 1-based
   now,      \* simulated clock
+  owed,     \* real time spent outside the back-end since its last call returned (to be charged once by the next call)
   cfgOf,    \* [Trials -> configuration index, 0 = not started]
   seedOf,   \* [Trials -> seed index, 0 = not yet known]
   runStart, \* [Trials -> time the current run starts on the worker]
@@ -42,7 +43,7 @@ VARIABLES
   ready,    \* [Trials -> Seq of <<lv, stamp>>]  results processed but not yet fetched
   prun      \* [Trials -> [c, s, b, lim]]  what the next Start event of the trial will run
 
-monV  == <<now, cfgOf, seedOf, runStart, base, limit, nextLv, lastSt, mode, pausedAt, flags>>
+monV  == <<now, owed, cfgOf, seedOf, runStart, base, limit, nextLv, lastSt, mode, pausedAt, flags>>
 progV == <<heap, cnt, ready, prun>>
 vars  == <<cf, monV, progV>>
 
@@ -70,8 +71,8 @@ Stamp(t, s, l) == runStart[t] + RunElapsed(cfgOf[t], s, base[t])[l - base[t]] + 
 \* start_trial(config c, config[max_resource_attr] = lim) returned trial t; clock after the call = n1
 EvStart(t, c, lim, n1) ==
   /\ t \in Trials /\ mode[t] = "none" /\ c \in 1..Len(cf.tab)
-  /\ flags' = flags \cup Flag(n1 < now, "clock_backwards")
-  /\ now' = n1
+  /\ flags' = flags \cup Flag(n1 < now, "clock_backwards") \cup Flag(n1 # now + owed, "outside_time_not_charged_once")
+  /\ now' = n1 /\ owed' = 0
   /\ cfgOf' = [cfgOf EXCEPT ![t] = c]
   /\ seedOf' = [seedOf EXCEPT ![t] = IF cf.seed > 0 THEN cf.seed ELSE 0]
   /\ runStart' = [runStart EXCEPT ![t] = n1 + cf.dstart]
@@ -84,8 +85,8 @@ EvStart(t, c, lim, n1) ==
 \* resume_trial(t) with config[max_resource_attr] = lim
 EvResume(t, lim, n1) ==
   /\ mode[t] = "paused"
-  /\ flags' = flags \cup Flag(n1 < now, "clock_backwards")
-  /\ now' = n1
+  /\ flags' = flags \cup Flag(n1 < now, "clock_backwards") \cup Flag(n1 # now + owed, "outside_time_not_charged_once")
+  /\ now' = n1 /\ owed' = 0
   /\ runStart' = [runStart EXCEPT ![t] = n1 + cf.dstart]
   /\ base' = [base EXCEPT ![t] = IF cf.ckpt THEN pausedAt[t] ELSE 0]
   /\ nextLv' = [nextLv EXCEPT ![t] = IF cf.ckpt THEN pausedAt[t] + 1 ELSE 1]
@@ -106,7 +107,8 @@ ApplyResults(res, i, nl, so, ls, fl) ==
                        [so EXCEPT ![t] = IF so[t] = 0 /\ Cardinality(S) = 1 THEN CHOOSE s \in S : TRUE ELSE so[t]],
                        [ls EXCEPT ![t] = st], fl)
 EvFetch(ids, res, n1) ==
-  /\ flags' = flags \cup Flag(n1 < now, "clock_backwards")
+  /\ owed' = 0
+  /\ flags' = flags \cup Flag(n1 < now, "clock_backwards") \cup Flag(n1 # now + owed, "outside_time_not_charged_once")
        \cup UNION { LET t == res[i][1] IN
                     \* judged against the state reached after the previous results of the same batch
                     LET pre == ApplyResults(SubSeq(res, 1, i - 1), 1, nextLv, seedOf, lastSt, {}) IN
@@ -130,12 +132,15 @@ EvFetch(ids, res, n1) ==
 \* pause_trial(t, result at level lv) / stop_trial(t)
 EvPause(t, lv, n1) ==
   /\ mode[t] = "running"
-  /\ flags' = flags \cup Flag(n1 < now, "clock_backwards")
+  \* (a blocking stop also advances the clock by the stop delays: the outside time is a lower bound here)
+  /\ flags' = flags \cup Flag(n1 < now, "clock_backwards") \cup Flag(n1 < now + owed, "outside_time_not_charged_once")
+  /\ owed' = 0
   /\ now' = n1 /\ mode' = [mode EXCEPT ![t] = "paused"] /\ pausedAt' = [pausedAt EXCEPT ![t] = lv]
   /\ UNCHANGED <<cfgOf, seedOf, runStart, base, limit, nextLv, lastSt>>
 EvStop(t, n1) ==
   /\ mode[t] = "running"
-  /\ flags' = flags \cup Flag(n1 < now, "clock_backwards")
+  /\ flags' = flags \cup Flag(n1 < now, "clock_backwards") \cup Flag(n1 < now + owed, "outside_time_not_charged_once")
+  /\ owed' = 0
   /\ now' = n1 /\ mode' = [mode EXCEPT ![t] = "stopped"]
   /\ UNCHANGED <<cfgOf, seedOf, runStart, base, limit, nextLv, lastSt, pausedAt>>
 
@@ -143,24 +148,29 @@ EvStop(t, n1) ==
 EvSleep(n1) ==
   /\ flags' = flags \cup Flag(n1 # now + cf.sleep, "sleep_not_charged_once")
   /\ now' = n1
-  /\ UNCHANGED <<cfgOf, seedOf, runStart, base, limit, nextLv, lastSt, mode, pausedAt>>
+  /\ UNCHANGED <<owed, cfgOf, seedOf, runStart, base, limit, nextLv, lastSt, mode, pausedAt>>
+
+\* d ticks of real time pass outside the back-end (the tuning loop and the scheduler compute)
+EvOutside(d) ==
+  /\ owed' = owed + d
+  /\ UNCHANGED <<now, cfgOf, seedOf, runStart, base, limit, nextLv, lastSt, mode, pausedAt, flags>>
 
 EvCrash == flags' = flags \cup {"backend_raised"}
-           /\ UNCHANGED <<now, cfgOf, seedOf, runStart, base, limit, nextLv, lastSt, mode, pausedAt>>
+           /\ UNCHANGED <<now, owed, cfgOf, seedOf, runStart, base, limit, nextLv, lastSt, mode, pausedAt>>
 
 NoFlag(f) == f \notin flags
 ClockMonotone     == NoFlag("clock_backwards") /\ NoFlag("stamp_in_future") /\ NoFlag("stamp_backwards")
 ResultsFromTable  == NoFlag("value_not_from_table")
 LevelsConsecutive == NoFlag("level_not_consecutive") /\ NoFlag("beyond_max_resource")
 StampFormula      == NoFlag("stamp_formula")
-WaitChargedOnce   == NoFlag("sleep_not_charged_once")
+WaitChargedOnce   == NoFlag("sleep_not_charged_once") /\ NoFlag("outside_time_not_charged_once")
 NoEventAfterStop  == NoFlag("result_after_stop") /\ NoFlag("result_for_unpolled_trial")
 NeverRaises       == NoFlag("backend_raised")
 
 ----------------------------------------------------------------------------
 (* PROGRAM: event heap *)
 InitCommon(c) ==
-  /\ cf = c /\ now = 0
+  /\ cf = c /\ now = 0 /\ owed = 0
   /\ cfgOf = [t \in Trials |-> 0] /\ seedOf = [t \in Trials |-> 0] /\ runStart = [t \in Trials |-> 0]
   /\ base = [t \in Trials |-> 0] /\ limit = [t \in Trials |-> 0] /\ nextLv = [t \in Trials |-> 1]
   /\ lastSt = [t \in Trials |-> 0] /\ mode = [t \in Trials |-> "none"] /\ pausedAt = [t \in Trials |-> 0]
@@ -187,40 +197,45 @@ Process(h, rd, upto, k, pr) ==
          [] e.kind = "Complete" -> Process(h \ {e}, rd, upto, k, pr)
          [] e.kind = "Stop"     -> Process({x \in h : x.t # e.t}, rd, upto, k, pr)
 
+\* every back-end call first charges the real time spent outside (_advance_by_outside_time) ...
+Entry == now + owed
+\* ... and marks its exit at the end (mark_exit); between two calls real time may pass
+A_Outside(d) == EvOutside(d) /\ UNCHANGED progV
+
 \* start_trial: _schedule processes the past, then pushes Start at now + delay_start
 A_Start(t, c, s, lim) ==
   /\ mode[t] = "none" /\ (IF t = 0 THEN TRUE ELSE mode[t - 1] # "none")
-  /\ LET p == Process(heap, ready, now, cnt, prun) IN
-       /\ heap' = p[1] \cup {[time |-> now + cf.dstart, cnt |-> p[3], kind |-> "Start", t |-> t, lv |-> 0]}
+  /\ LET p == Process(heap, ready, Entry, cnt, prun) IN
+       /\ heap' = p[1] \cup {[time |-> Entry + cf.dstart, cnt |-> p[3], kind |-> "Start", t |-> t, lv |-> 0]}
        /\ ready' = p[2] /\ cnt' = p[3] + 1
   /\ prun' = [prun EXCEPT ![t] = [c |-> c, s |-> s, b |-> 0, lim |-> IF cf.mra THEN lim ELSE NumLevels(c)]]
-  /\ EvStart(t, c, lim, now)
+  /\ EvStart(t, c, lim, Entry)
 
 A_Resume(t, lim) ==
   /\ mode[t] = "paused" /\ (cf.mra => lim > pausedAt[t])
   /\ (cf.ckpt => pausedAt[t] < NumLevels(prun[t].c))     \* legal envelope: something is left to run
-  /\ LET p == Process(heap, ready, now, cnt, prun) IN
-       /\ heap' = p[1] \cup {[time |-> now + cf.dstart, cnt |-> p[3], kind |-> "Start", t |-> t, lv |-> 0]}
+  /\ LET p == Process(heap, ready, Entry, cnt, prun) IN
+       /\ heap' = p[1] \cup {[time |-> Entry + cf.dstart, cnt |-> p[3], kind |-> "Start", t |-> t, lv |-> 0]}
        /\ ready' = p[2] /\ cnt' = p[3] + 1
   /\ prun' = [prun EXCEPT ![t].b = IF cf.ckpt THEN pausedAt[t] ELSE 0,
                            ![t].lim = IF cf.mra THEN lim ELSE NumLevels(prun[t].c)]
-  /\ EvResume(t, lim, now)
+  /\ EvResume(t, lim, Entry)
 
 \* fetch_status_results(ids): results of polled trials are returned, the others are dropped (but counted as seen)
 SeqOfSet(S) == SetToSeq(S)
 A_Fetch(ids) ==
-  LET p   == Process(heap, ready, now, cnt, prun)
+  LET p   == Process(heap, ready, Entry, cnt, prun)
       rd  == p[2]
       out == [t \in Trials |-> IF t \in ids THEN rd[t] ELSE <<>>]
       \* the batch in trial order (the tabular back-end does not sort: results carry no worker time stamp)
       F[i \in 0..NT] == IF i = 0 THEN <<>> ELSE F[i-1] \o [j \in 1..Len(out[i-1]) |->
                               <<i-1, out[i-1][j][1], Metric(prun[i-1].c, prun[i-1].s, out[i-1][j][1]), out[i-1][j][2]>>]
   IN  /\ heap' = p[1] /\ cnt' = p[3] /\ ready' = [t \in Trials |-> <<>>] /\ prun' = prun
-      /\ EvFetch(ids, F[NT], now)
+      /\ EvFetch(ids, F[NT], Entry)
 
 \* _stop_or_pause_trial
 StopSteps(t) ==
-  LET tstop == now + cf.dstop
+  LET tstop == Entry + cf.dstop
       h1    == heap \cup {[time |-> tstop, cnt |-> cnt, kind |-> "Stop", t |-> t, lv |-> 0]}
       n1    == tstop + cf.eps
       p1    == Process(h1, ready, n1, cnt + 1, prun)
@@ -248,4 +263,5 @@ Next ==
   \/ (A_Fetch({t \in Trials : mode[t] = "running"}) /\ UNCHANGED cf)
   \/ \E t \in Trials : (A_Pause(t, nextLv[t] - 1) \/ A_Stop(t)) /\ UNCHANGED cf
   \/ (A_Sleep /\ UNCHANGED cf)
+  \/ \E d \in cf.outs : owed = 0 /\ A_Outside(d) /\ UNCHANGED cf
 =============================================================================
